@@ -1130,18 +1130,64 @@ def wb_iter(I, callee, args, st, n, fidx):
     return val(Term("token_iter", (Const("int", st.tokens_epoch),)), st)
 
 
+def _slice_emptiness(st, text):
+    """True (provably empty) / False (provably non-empty) / None for a source slice between two cursor snapshots."""
+    if isinstance(text, Const) and text.t == "str":
+        return text.v == ""
+    if isinstance(text, Term) and text.op == "str_slice" and len(text.args) == 3:
+        x, y = snap_of(text.args[1]), snap_of(text.args[2])
+        if x and y and x[0] == y[0] == "byte" and x[1] == y[1]:
+            if x[2] == y[2] and x[3] == y[3]:
+                return True
+            mc = st.fields.get("_minc", {})
+            if x[3] == 0 and y[3] == 0 and x[2] in mc and y[2] in mc and mc[y[2]] - mc[x[2]] >= 1:
+                return False
+    return None
+
+
+def _litpos(st):
+    k = st.fields.get("_litk", 0)
+    if st.fields.get("_litk_unknown"):
+        return Term("lit_next", (Const("int", st.fields.get("_lit", 0)),), "u32")
+    return Term("litpos", (Const("int", k),), "u32")
+
+
 @prim(BUF + "add_string_literal")
 def wb_add_lit(I, callee, args, st, n, fidx):
+    """Positions in the literal buffer are ordered labels litpos(k): an empty text leaves the position where it is,
+    a provably non-empty one moves it to a strictly larger label; unknown -> opaque from then on."""
     st.fields["_lit"] = st.fields.get("_lit", 0) + 1
     e = st.fields["_lit"]
-    r = Tup([Term("lit_start", (Const("int", e),), "u32"), Term("lit_end", (Const("int", e),), "u32")])
-    I.emit(st, "add_literal", n, text=args[1], epoch=e, result=r)
+    start = _litpos(st)
+    emp = _slice_emptiness(st, args[1])
+    if emp is True:
+        end = start
+    elif emp is False and not st.fields.get("_litk_unknown"):
+        st.fields["_litk"] = st.fields.get("_litk", 0) + 1
+        end = _litpos(st)
+    else:
+        st.fields["_litk_unknown"] = True
+        end = Term("lit_end", (Const("int", e),), "u32")
+    r = Tup([start, end])
+    I.emit(st, "add_literal", n, text=args[1], epoch=e, result=r, empty=emp)
     return val(r, st)
 
 
 @prim(BUF + "next_string_literal_start")
 def wb_next_lit(I, callee, args, st, n, fidx):
-    return val(Term("lit_next", (Const("int", st.fields.get("_lit", 0)),), "u32"), st)
+    return val(_litpos(st), st)
+
+
+@prim("std::cmp::min", "core::cmp::min", "std::cmp::Ord::min")
+def cmp_min(I, callee, args, st, n, fidx):
+    a, b = args[0], args[1]
+    if a.key() == b.key():
+        return val(a, st)
+    if isinstance(a, Term) and isinstance(b, Term) and a.op == b.op == "litpos":
+        return val(a if a.args[0].v <= b.args[0].v else b, st)
+    if isinstance(a, Const) and isinstance(b, Const) and a.t == b.t == "int":
+        return val(a if a.v <= b.v else b, st)
+    return val(Term("ext:" + callee, (a, b), n.get("ty")), st)
 
 
 @prim(BUF + "checkpoint")
@@ -1158,6 +1204,7 @@ def wb_rollback(I, callee, args, st, n, fidx):
     st.tokens_epoch += 1
     st.lines_epoch += 1
     st.fields["_lit"] = st.fields.get("_lit", 0) + 1
+    st.fields["_litk_unknown"] = True      # the literal buffer was cut back to an earlier length
     return val(UNIT, st)
 
 
